@@ -1,1 +1,91 @@
-(* placeholder until the theorems land: states nothing, so the proof stage reports it broken *)
+(* C01 — module-rule verdicts equal the documented rule semantics.
+   Statements only; proofs in Proofs/RuleProofs.v (which rests on
+   Proofs/SearchProofs.v: the three graph queries collapse to the documented
+   comprehensions on pairwise unrelated filters).
+
+   Reading guide: [verdict g cfg] is the model of Rule.assert_applies
+   (Model/Rule.v), [mk_cfg v imp exc Ss Os] the configuration the fluent API
+   builds for   Ss <v> import/be-imported-by [except] Os,   [spec_holds] the
+   documented semantics (Model/SpecRule.v, 40 lines), [strict] the domain the
+   property names: well-formed graph, every named module exists, subjects and
+   objects pairwise unrelated in the hierarchy, both lists non-empty. *)
+From Coq Require Import List Bool NArith.
+From PTA Require Import Names Graph Search Rule SpecRule SpecLines NamesProofs SearchProofs RuleProofs.
+Import ListNotations.
+
+Theorem C01_verdict :
+  forall (comp : Type) (ceqb : comp -> comp -> bool),
+  (forall x y, reflect (x = y) (ceqb x y)) ->
+  forall (rmatch : N -> list comp -> bool) g v imp exc Ss Os,
+  strict ceqb g Ss Os ->
+  verdict ceqb rmatch g (mk_cfg v imp exc Ss Os) =
+    if spec_holds ceqb g v imp exc Ss Os then Pass
+    else Fail (lines_of (verdict ceqb rmatch g (mk_cfg v imp exc Ss Os))).
+Proof. exact @strict_verdict. Qed.
+Print Assumptions C01_verdict.
+
+(* never an error on the strict domain: returns normally or raises AssertionError *)
+Theorem C01_total :
+  forall (comp : Type) (ceqb : comp -> comp -> bool),
+  (forall x y, reflect (x = y) (ceqb x y)) ->
+  forall (rmatch : N -> list comp -> bool) g v imp exc Ss Os,
+  strict ceqb g Ss Os ->
+  is_err (verdict ceqb rmatch g (mk_cfg v imp exc Ss Os)) = false.
+Proof. exact @strict_total. Qed.
+Print Assumptions C01_total.
+
+(* the three public graph queries are the documented comprehensions *)
+Theorem C01_query_between :
+  forall (comp : Type) (ceqb : comp -> comp -> bool),
+  (forall x y, reflect (x = y) (ceqb x y)) ->
+  forall g d u, wf_graph g -> exists_f ceqb g d = true -> exists_f ceqb g u = true ->
+  related ceqb (fid d) (fid u) = false ->
+  q_between ceqb g d u = Ok (filter (fun e => inD ceqb d (fst e) && inD ceqb u (snd e)) (imps g)).
+Proof. exact @q_between_char. Qed.
+Print Assumptions C01_query_between.
+
+Theorem C01_query_other_out :
+  forall (comp : Type) (ceqb : comp -> comp -> bool),
+  (forall x y, reflect (x = y) (ceqb x y)) ->
+  forall g d us, wf_graph g -> exists_f ceqb g d = true -> (forall u, In u us -> exists_f ceqb g u = true) ->
+  unrel_from ceqb d us -> pw_unrel ceqb (map fid us) ->
+  q_other_out ceqb g d us = Ok (filter (fun e => is_other ceqb true d us e) (imps g)).
+Proof. exact @q_other_out_char. Qed.
+Print Assumptions C01_query_other_out.
+
+Theorem C01_query_other_in :
+  forall (comp : Type) (ceqb : comp -> comp -> bool),
+  (forall x y, reflect (x = y) (ceqb x y)) ->
+  forall g ds u, wf_graph g -> exists_f ceqb g u = true -> (forall d, In d ds -> exists_f ceqb g d = true) ->
+  unrel_from ceqb u ds -> pw_unrel ceqb (map fid ds) ->
+  q_other_in ceqb g ds u = Ok (filter (fun e => is_other ceqb false u ds (snd e, fst e)) (imps g)).
+Proof. exact @q_other_in_char. Qed.
+Print Assumptions C01_query_other_in.
+
+(* ---- non-vacuity: a 7-module tree with 5 imports and a 2-subject / 2-object rule is strict ---- *)
+Open Scope N_scope.
+Definition ex_g : @graph N :=
+  {| nodes := [[1]; [1;2]; [1;3]; [1;4]; [1;4;5]; [1;4;6]; [1;7]];
+     imps := [([1;2], [1;3]); ([1;4;5], [1;2]); ([1;4;6], [1;7]); ([1;3], [1;4;5]); ([1;7], [1])] |}.
+Definition ex_Ss : list (@filt N) := [Named [1;2]; SubOf [1;4]].
+Definition ex_Os : list (@filt N) := [Named [1;3]; Named [1;7]].
+
+Lemma N_eqb_reflect : forall x y : N, reflect (x = y) (N.eqb x y).
+Proof. intros x y. apply N.eqb_spec. Qed.
+
+Example C01_strict_example : strict N.eqb ex_g ex_Ss ex_Os.
+Proof.
+  constructor.
+  - intros a b H. simpl in H.
+    repeat (destruct H as [H|H]; [injection H as <- <-; simpl; intuition congruence|]). destruct H.
+  - intros f H. simpl in H. repeat (destruct H as [<-|H]; [reflexivity|]). destruct H.
+  - simpl. repeat split; intros y Hy; simpl in Hy; repeat (destruct Hy as [<-|Hy]; [reflexivity|]); destruct Hy.
+  - discriminate.
+  - discriminate.
+Qed.
+
+(* and both verdicts occur on it *)
+Example C01_example_verdicts :
+  verdict N.eqb (fun _ _ => false) ex_g (mk_cfg Should true false ex_Ss ex_Os) <> Pass /\
+  verdict N.eqb (fun _ _ => false) ex_g (mk_cfg ShouldNot false false ex_Ss [Named [1;7]]) = Pass.
+Proof. split; [vm_compute; discriminate | vm_compute; reflexivity]. Qed.
